@@ -61,7 +61,7 @@ def plan(tier, seed):
     rng.shuffle(desc)
     cfgs = []
     # every descriptor as first and as second user of a shared root (both orders), mixed SRS / DMRS
-    nparts = 4
+    nparts = 4 if th else 2
     sizes = [48, 72, 96, 120]
     for i in range(nparts):
         cfgs.append((f"pairs/{i}", desc[i::nparts], sizes[(i + seed) % 4], 2, 0, [], 0))
